@@ -133,3 +133,19 @@ Theorem C09_map2_dup_absorb (H : list (oprec (mop (mop oop)))) (s : cmap (cmap o
              forall k2, m2_state_entries (mapply vo2 s (op_val o)) k1 k2 = m2_state_entries s k1 k2.
 Proof. exact (map2_dup_absorb H s K i o). Qed.
 Print Assumptions C09_map2_dup_absorb.
+
+(** Map<K, Orswot> whose keys are never removed: a duplicate op (no admissibility needed) and a stale state change nothing at all
+    (Leibniz equality of the complete state) (proofs/MapOrswotNK.v) *)
+From Crdt Require Import model.Orswot model.Map spec.System spec.OrswotSpec spec.OrswotSystem spec.MapSpec spec.MapSystem spec.MapOrswotSpec proofs.MapOrswotNK proofs.MapOrswotNKCor.
+Theorem C09_mapor_nk_dup_apply (H : list (oprec (mop oop))) :
+  mohist_ok_nk H -> forall (s : cmap orswot) (K : gset nat) (i : nat) (r : oprec (mop oop)),
+  moreach_nk H s K -> H !! i = Some r -> i ∈ K -> mapply orswot_valops s (op_val r) = s.
+Proof. exact (mapor_dup_apply_nk H). Qed.
+Print Assumptions C09_mapor_nk_dup_apply.
+
+Theorem C09_mapor_nk_stale_merge (H : list (oprec (mop oop))) :
+  mohist_ok_nk H -> forall (s1 : cmap orswot) (K1 : gset nat) (s2 : cmap orswot) (K2 : gset nat),
+  moreach_nk H s1 K1 -> moreach_nk H s2 K2 -> K2 ⊆ K1 ->
+  mmerge orswot_valops s1 s2 = s1 /\ mmerge orswot_valops s2 s1 = s1.
+Proof. exact (mapor_stale_merge_nk H). Qed.
+Print Assumptions C09_mapor_nk_stale_merge.
